@@ -308,10 +308,10 @@ func (m *Model) Setup(objs []ObjInit) string {
 
 // ForInInfo is what the model reports about a for-in step with a mutating body.
 type ForInInfo struct {
-	ShiftingDelete bool   // the body deleted a property of the object being enumerated that was not the last of its table while keys were still to come (recorded otto defect: the enumeration then skips/repeats keys)
-	ShadowTrigger  bool   // shadow-blind enumeration would fire a body action that 12.6.4 never fires
-	Ambiguous      bool   // a name added during the enumeration (visit optional per 12.6.4) is a pending trigger: outcome not determined by ES5
-	Err            string // verdict on the visited sequence; "" = accepted
+	ShiftingDelete bool     // the body deleted a property of the object being enumerated that was not the last of its table while keys were still to come (recorded otto defect: the enumeration then skips/repeats keys)
+	ShadowTrigger  bool     // shadow-blind enumeration would fire a body action that 12.6.4 never fires
+	Ambiguous      bool     // a name added during the enumeration (visit optional per 12.6.4) is a pending trigger: outcome not determined by ES5
+	Err            string   // verdict on the visited sequence; "" = accepted
 	ChainDelete    bool     // the body removed a property from an object of the chain being enumerated
 	Seq            []string // the names 12.6.4 obliges the loop to visit (not index-like, not added during the enumeration), in model order
 }
